@@ -190,7 +190,7 @@ func (g *genState) op(kind string) (Op, bool) {
 		var items []Item
 		for i := 0; i < n; i++ {
 			it := g.item(q)
-			if kind == "addall" {
+			if inMem(q) {
 				it.ID = "" // batch items get unique IDs (the stream is keyed by them)
 				if !pct(t, "noid", 15) || g.cfg.Kind != "plain" {
 					it.ID = "b" + itoa(it.N)
